@@ -120,13 +120,13 @@ PLAN["C09"] = dict(
 )
 PLAN["C10"] = dict(
     verus=dict(quick=["drv", "drvo", "cmp", "rank", "quant"], thorough=["drv", "drvo", "cmp", "rank", "quant"]),
-    kani=dict(quick=[], thorough=[]),
+    kani=dict(quick=["rank_bounded", "nd_out_bounded"], thorough=["rank_bounded", "nd_out_bounded", "roll_c03_bounded"]),
     level="proof",
 )
 
 PLAN["C18"] = dict(
     verus=dict(quick=["parse", "fmt"], thorough=["parse", "fmt"]),
-    kani=dict(quick=[], thorough=[]),
+    kani=dict(quick=["time_calendar_bounded"], thorough=["time_calendar_bounded"]),
     level="proof",
 )
 
@@ -156,7 +156,7 @@ PLAN["C11"] = dict(
 
 PLAN["C07"] = dict(
     verus=dict(quick=["drv", "drvo", "feat.of64", "cmp"], thorough=["drv", "drvo", "feat.of64", "feat.f64", "cmp"]),
-    kani=dict(quick=["backend_bounded", "nd_accessors_bounded", "nd_drivers_bounded"], thorough=["backend_bounded", "nd_accessors_bounded", "nd_drivers_bounded"]),
+    kani=dict(quick=["backend_bounded", "nd_accessors_bounded", "nd_drivers_bounded", "nd_out_bounded"], thorough=["backend_bounded", "nd_accessors_bounded", "nd_drivers_bounded", "nd_out_bounded"]),
     level="proof",
 )
 PLAN["C08"] = dict(
@@ -205,7 +205,7 @@ DETAILS = {
                 assumptions=["A-REAL", "A-LEN", "A-EXTRACT", "A-TOOLS"]),
     "C06": dict(text=_V + ": every output is a stated function of wnd(view, window, i) only (value clauses and cache invariants of feat / cmp, positional clauses of map).  Kani (BOUNDED, length 4): rolling extrema / arg-extrema, rank and min-max normalisation against a from-scratch evaluation of each window alone.",
                 note="'bit-for-bit' is equality under A-REAL", not_covered=["functions not under contract or bounded harness"], assumptions=["A-REAL", "A-EXTRACT", "A-TOOLS"]),
-    "C07": dict(text=_V + ": the drivers are proved against the abstract Vec1View contract (any backend satisfying it gives the same trace) and every _to function delivers the same values whether returned or written to the caller's buffer (delivered_each).  Kani (BOUNDED, 3-5 elements) checks that Vec, fixed array, VecDeque at 4 head offsets, ndarray owned arrays and ndarray views with step 1, 2, -1, -2 satisfy the accessor part of that contract (len, get, uget, titer both ways, slice, uslice, try_as_slice), that the overridden ndarray drivers (incl. the slice driver rolling_custom) see the logical sequence of a reversed / strided view, and that an Arc-wrapped Vec answers like the Vec.",
+    "C07": dict(text=_V + ": the drivers are proved against the abstract Vec1View contract (any backend satisfying it gives the same trace) and every _to function delivers the same values whether returned or written to the caller's buffer (delivered_each).  Kani (BOUNDED, 3-5 elements) checks that Vec, fixed array, VecDeque at 4 head offsets, ndarray owned arrays and ndarray views with step 1, 2, -1, -2 satisfy the accessor part of that contract (len, get, uget, titer both ways, slice, uslice, try_as_slice), that the overridden ndarray drivers (incl. the slice driver rolling_custom) see the logical sequence of a reversed / strided view, that an Arc-wrapped Vec answers like the Vec, that the five Vec fast-path drivers and the default slice driver (VecDeque) hand out the right arguments, that the returned Vec / returned VecDeque / caller-buffer paths agree, and that a strided ndarray out buffer receives the results in its logical elements.",
                 note="the backend part is bounded; the Polars backend is not compiled / not covered",
                 not_covered=["Polars backend", "Arc wrappers", "option view", "fast-path overrides other than Vec / ndarray"],
                 assumptions=["A-REAL", "A-ITER", "A-EXTRACT", "A-TOOLS"]),
@@ -214,7 +214,7 @@ DETAILS = {
                 assumptions=["A-REAL", "A-ITER", "A-MONO", "A-EXTRACT", "A-TOOLS"]),
     "C09": dict(text=_V + ": the announced-length precondition holds at every TrustIter::new / to_trust site of the map, rank, gen units; TrustIter itself (next, next_back, size_hint: the announced length is the stored one and follows consumption from either end); exact size_hint of Linspace.  Kani: linspace count on the real code.",
                 note="std adaptors by assumed contract (A-ITER)", not_covered=["TrustIter sites in functions not under contract"], assumptions=["A-ITER", "A-EXTRACT", "A-TOOLS"]),
-    "C10": dict(text=_V + ": index preconditions at every uget / uset / uslice site and the write-exactly-once ghost map of the drivers, cmp, rank, quant units; every slot written before assume_init in the Vec and ndarray fast paths.",
+    "C10": dict(text=_V + ": index preconditions at every uget / uset / uslice site and the write-exactly-once ghost map of the drivers, cmp, rank, quant units; every slot written before assume_init in the Vec and ndarray fast paths.  Kani (BOUNDED): vrank on series of length 1..=3 (every slot written once, no index out of range) and a strided ndarray out buffer.",
                 note="", not_covered=["unsafe sites in functions not under contract"], assumptions=["A-SORT", "A-ITER", "A-EXTRACT", "A-TOOLS"]),
     "C11": dict(text=_V + ": count_valid, count_none, vsum, vmean, vmean_var, vvar, vstd, vskew, vmax, vmin (via max_with / min_with), vargmax, vargmin, vany, vall, vcov, vcorr_pearson (pairwise-complete) equal their textbook forms over the non-null elements, incl. the null / minimum-count cases.  Kani (BOUNDED, length <= 4) as a backstop.",
                 note="A-REAL for sums and moments; fold helpers vfold / vfold_n / vapply_n by assumed contract",
